@@ -561,6 +561,10 @@ func sortedTasks(tasks map[string]*Task) []*Task {
 
 func sortByCreatedAt(tasks []*Task) {
 	sort.Slice(tasks, func(i, j int) bool {
+		// Equal creation times (hand-merged logs) must not leave the order to map iteration.
+		if tasks[i].CreatedAt.Equal(tasks[j].CreatedAt) {
+			return tasks[i].ID < tasks[j].ID
+		}
 		return tasks[i].CreatedAt.Before(tasks[j].CreatedAt)
 	})
 }
